@@ -15,7 +15,7 @@ ID = 'C09'
 LEVEL = 'exploration'
 RULE = ('Hypothesis arguments (generic / modal-heavy / quantifier-heavy profiles, and a validity-biased profile: instances of '
         'standard valid forms wrapped in monotone modal / propositional contexts with extra premises) x logic; for each argument the whole '
-        'grid {group optim on/off} x {rank optim on/off} x {build(), step loop} is run, plus extra tie-break order seeds '
+        'grid {group optim on/off} x {rank optim on/off} x {build(), step loop} is run, plus model building switched on (build and step loop), plus extra tie-break order seeds '
         'at the default options, plus a permutation and a duplication of the premises. Oracle: no configuration raises; '
         'the set of non-limited outcome classes (valid / invalid with a limit-free open branch) over all runs of the '
         'argument has at most one element. Non-trivial = at least two non-limited outcomes and at least two distinct '
@@ -87,6 +87,8 @@ def configs(case):
                     continue
                 dim = '+'.join(d for d, on in (('group-off', not g), ('rank-off', not r), ('stepwise', sw)) if on)
                 out.append((f'group={g},rank={r},stepwise={sw}', dim, dict(group=g, rank=r, stepwise=sw, order=o0)))
+    out.append(('is_build_models=True', 'build-models', dict(group=True, rank=True, stepwise=False, order=o0, models=True)))
+    out.append(('is_build_models=True,stepwise', 'build-models', dict(group=True, rank=True, stepwise=True, order=o0, models=True)))
     for k in case.get('orders', []):
         out.append((f'order={k}', 'order', dict(group=True, rank=True, stepwise=False, order=k)))
     return out
